@@ -361,7 +361,7 @@ pub fn run(args: &Args, report: &mut Report) {
         }
         return;
     }
-    let n = report.size(360, 6000);
+    let n = report.size(360, 40_000);
     for i in 0..n {
         if c11::too_many_hangs(report) {
             report.inconclusive("remaining cases not run after repeated unfinished runs");
